@@ -77,6 +77,19 @@ type Stamp struct {
 func (s *Stamp) String() string { return "STAMP-AS-TEXT" }
 func (s Stamp) Error() string   { return "STAMP-AS-ERROR" }
 
+// Shadowed declares a field before embedding a struct that has a field of the same
+// name: as in Go, the outer field is the one its name reaches.
+type Audit struct {
+	Name string
+	Rev  int
+}
+
+type Shadowed struct {
+	Name string
+	Audit
+	Count int
+}
+
 type fixedType struct {
 	rt     reflect.Type
 	fields []string // exported fields set from Items
@@ -121,6 +134,8 @@ func init() {
 	}
 	reg("EmbedsPtr", EmbedsPtr{}, []string{"Inner", "Label"}, nil)
 	reg("Money", Money{}, []string{"Amount", "Currency"}, nil)
+	reg("Audit", Audit{}, []string{"Name", "Rev"}, nil)
+	reg("Shadowed", Shadowed{}, []string{"Name", "Audit", "Count"}, nil)
 	reg("Stamp", Stamp{}, []string{"Unix", "Zone"}, nil)
 	regT("PersonA", personTypeA(), []string{"Name", "Age"}, nil)
 	regT("PersonB", personTypeB(), []string{"Age", "Name", "Email"}, nil)
@@ -142,6 +157,12 @@ func FixedFields(name string) (exported, unexported []string) {
 // FixedFieldType is the Type of an exported field of a fixed struct.
 func FixedFieldType(name, field string) *Type {
 	switch name + "." + field {
+	case "Audit.Name", "Shadowed.Name":
+		return T(TString)
+	case "Audit.Rev", "Shadowed.Count":
+		return T(TInt)
+	case "Shadowed.Audit":
+		return FixedType("Audit")
 	case "Money.Amount", "Stamp.Unix":
 		return T(TInt64)
 	case "Money.Currency", "Stamp.Zone":
